@@ -4,6 +4,8 @@ import SLE.Spec.EVM
 import SLE.Driver.VMD
 import SLE.Driver.LiftD
 import SLE.Driver.SlotOracle
+import SLE.Driver.AbiText
+import SLE.Model.Pipe
 /-! Oracles for families `pipeline` and `orders` (no model answer: these families are
 oracle-only until the type-checking pipeline is modelled end to end). -/
 namespace SLE.Driver.PipelineD
@@ -106,19 +108,6 @@ def oracleC05 (payload : String) (es : List Entry) : List String :=
     let touches := (List.range bytes.length).any (fun i => (bytes.getD i 0 == 0x54 || bytes.getD i 0 == 0x55) && !(data.contains i))
     if !touches && !es.isEmpty then [s!"C05-storage-free-program-has-slots:0x{natHex (es.headD ⟨0, 0, ""⟩).index}"] else []
 
-def handle (tbl : Array (Nat × Nat)) (payload impl : String) : String × String :=
-  let segs :=
-    if impl.startsWith "PANIC" then ["C01-panic:" ++ impl]
-    else if impl.startsWith "res=err" then
-      (if (impl.splitOn "StoppedByWatchdog").length > 1 then
-         [(if (impl.splitOn "U.StoppedByWatchdog").length > 1 then "C03-analysis-does-not-halt:unification"
-           else "C03-analysis-does-not-halt:execution")] else [])
-    else match parseLayout impl with
-      | some es => oracleC12attr payload es ++ oracleC05 payload es ++
-          (if es.isEmpty && (harvestModelQuick payload) then [] else SlotOracle.check tbl (harvestModel payload) (es.map (·.index)))
-      | none => ["unparsable-impl-answer"]
-  ("n/a", verdictOf segs)
-
 open SLE SLE.Unify SLE.Containers in
 /-- Does some class, in some round of the (pinned-behaviour) model, hold three pieces of
 evidence in the region `MergeLaws.Bad` where `merge` is not associative (finding D11)?
@@ -131,13 +120,13 @@ def badTripleInSomeClass (packedToo : Bool) (nvars : Nat) (js : List (Nat × TE)
     let pf := l.filter MergeLaws.PF
     if !packedToo then pf.any (fun a => pf.any (fun b => pf.any (fun c => MergeLaws.Bad a b c)))
     else
-      -- a packed encoding with spans swallows an unsized / full-width numeric or bytes word
-      -- that conflicts with another word of the class (finding D18, outside the Lean theorems)
+      -- a packed encoding with spans in a class that also holds two words conflicting with each
+      -- other: whether the conflict is seen depends on which of them the encoding absorbs first
       let hasPacked := l.any (fun e => match e with | .packed (_ :: _) _ => true | _ => false)
-      let swallowed := fun (e : TE) => match e with
-        | .word w u => (w == none || w == some 256) && (u == .unsignedNumeric || u == .numeric || u == .bytes)
-        | _ => false
-      hasPacked && pf.any (fun b => swallowed b && pf.any (fun c => MergeLaws.nsWord c && MergeLaws.conflicts b c))
+      -- (first seen with a full-width word, finding D18; it is the same arm for any width: the
+      -- encoding re-partitions itself around whichever word it meets first, and the second word
+      -- then meets a span instead of the first word)
+      hasPacked && pf.any (fun b => MergeLaws.nsWord b && pf.any (fun c => MergeLaws.nsWord c && MergeLaws.conflicts b c))
   let rec go (fuel : Nat) (f : Forest) (next : Nat) : Bool :=
     match fuel with
     | 0 => false
@@ -150,6 +139,51 @@ def badTripleInSomeClass (packedToo : Bool) (nvars : Nat) (js : List (Nat × TE)
   match initForest UnifyD.sortedOrders (List.range nvars) infOf with
   | .ok f0 => go 40 f0 nvars
   | .error _ => false
+
+/-- the whole analysis on the model (none: an outcome whose text is not comparable) -/
+def modelRun (tbl : Array (Nat × Nat)) (payload : String) : Option (String × SLE.TC.Analysis) :=
+  match words payload with
+  | [_, cfgS, hex] =>
+    (match VMD.parseCfg cfgS, hexBytes? hex with
+     | some cfg, some bytes =>
+       (match SLE.Pipe.analyseProgram (LiftD.hashCtx tbl) UnifyD.sortedOrders cfg bytes 2000000 400 with
+        | .disasmError _ => none
+        | .execErrors es => some ("res=err kinds=[" ++ ";".intercalate (es.map (fun (l, e) => s!"{l}:X.{e.name}")) ++ "]", ⟨0, 0, [], .layout []⟩)
+        | .analysed a => (match a.outcome with
+          | .layout l => some ("res=ok layout=" ++ AbiText.layoutText l, a)
+          | _ => none))
+     | _, _ => none)
+  | _ => none
+
+/-- K for the whole pipeline: the model's answer, unless the outcome is not comparable or the two
+differ on a program whose evidence is order dependent (findings D11 / D18: the code visits its
+hash maps in another order than the model's lists) -/
+def pipelineModel (tbl : Array (Nat × Nat)) (payload implCore : String) : String :=
+  -- compared under the hooks' `sorted` order only: the natural (per-process random) hash order
+  -- would make an order dependence show up in one run and not in the next
+  if (words payload).headD "" != "sorted" then implCore else
+  match modelRun tbl payload with
+  | none => implCore
+  | some (m, a) =>
+    if m == implCore then m
+    else
+      let js := a.infs.flatMap (fun (v, es) => es.map (fun e => (v, e)))
+      if badTripleInSomeClass false a.allocated js || badTripleInSomeClass true a.allocated js then implCore else m
+
+def handle (tbl : Array (Nat × Nat)) (payload impl : String) : String × String :=
+  let implCore := ((impl.splitOn " polls=").headD impl)
+  let model := pipelineModel tbl payload implCore
+  let segs :=
+    if impl.startsWith "PANIC" then ["C01-panic:" ++ impl]
+    else if impl.startsWith "res=err" then
+      (if (impl.splitOn "StoppedByWatchdog").length > 1 then
+         [(if (impl.splitOn "U.StoppedByWatchdog").length > 1 then "C03-analysis-does-not-halt:unification"
+           else "C03-analysis-does-not-halt:execution")] else [])
+    else match parseLayout impl with
+      | some es => oracleC12attr payload es ++ oracleC05 payload es ++
+          (if es.isEmpty && (harvestModelQuick payload) then [] else SlotOracle.check tbl (harvestModel payload) (es.map (·.index)))
+      | none => ["unparsable-impl-answer"]
+  (model ++ ((impl.splitOn implCore).getD 1 ""), verdictOf segs)
 
 /-- family `orders`: one program under 8 iteration orders -/
 def handleOrders (_payload impl0 : String) : String × String :=
